@@ -49,6 +49,8 @@ var (
 	famF        = &core.Family{Name: "fix128", Members: []core.FamilyMember{fm("Fix128", "", 128), fm("UFix128", "", 128)}}
 	famF64      = &core.Family{Name: "fix64", Members: []core.FamilyMember{fm("Fix64", "int64", 64), fm("UFix64", "uint64", 64)}}
 	famEnv      = &core.Family{Name: "environments", Members: []core.FamilyMember{{Tag: "InterpreterEnvironment"}, {Tag: "vmEnvironment"}}}
+	// the two jump-target scopes of the checker's control-flow bookkeeping ("WithSwitch mirrors WithLoop")
+	famCtl      = &core.Family{Name: "control-scopes", Members: []core.FamilyMember{{Tag: "Loop", Extra: []string{"loop"}}, {Tag: "Switch", Extra: []string{"switch"}}}}
 	allFamilies = []*core.Family{famS, famU, famW, famSB, famUB, famWB}
 )
 
